@@ -26,28 +26,28 @@ import (
 )
 
 type Obligation struct {
-	Name     string                    `json:"name"`
-	Pkg      string                    `json:"pkg"`
-	Files    []string                  `json:"files"`
-	Fn       string                    `json:"fn"`
-	Bounds   map[string]map[string]int `json:"bounds"` // tier -> name -> value
-	MaxLoop  int                       `json:"maxloop"`
-	MaxDepth int                       `json:"maxdepth"`
-	MaxWidth int                       `json:"maxwidth"`
-	Preempt  map[string]int            `json:"preempt"`
-	Unwind   string                    `json:"unwind"`   // "violation": hitting the unwinding bound is a violation
-	Deadlock string                    `json:"deadlock"` // "violation"
-	PanicOK  bool                      `json:"panic_ok"`
-	Reach    []string                  `json:"reach"`
-	Native   bool                      `json:"native"`
-	Paths    map[string]int            `json:"paths"`
-	TimeS    map[string]int            `json:"time_s"`
-	Subst    map[string]string         `json:"subst"`
-	Merge    []string                  `json:"merge"` // pure loop-free scalar callees evaluated by path merging
-	LoopBounds map[string]int          `json:"loop_bounds"`
-	Tiers    []string                  `json:"tiers"`
-	Opts     map[string]string         `json:"opts"` // engine options, e.g. {"pool": "lifo"}
-	What     string                    `json:"what"`
+	Name       string                    `json:"name"`
+	Pkg        string                    `json:"pkg"`
+	Files      []string                  `json:"files"`
+	Fn         string                    `json:"fn"`
+	Bounds     map[string]map[string]int `json:"bounds"` // tier -> name -> value
+	MaxLoop    int                       `json:"maxloop"`
+	MaxDepth   int                       `json:"maxdepth"`
+	MaxWidth   int                       `json:"maxwidth"`
+	Preempt    map[string]int            `json:"preempt"`
+	Unwind     string                    `json:"unwind"`   // "violation": hitting the unwinding bound is a violation
+	Deadlock   string                    `json:"deadlock"` // "violation"
+	PanicOK    bool                      `json:"panic_ok"`
+	Reach      []string                  `json:"reach"`
+	Native     bool                      `json:"native"`
+	Paths      map[string]int            `json:"paths"`
+	TimeS      map[string]int            `json:"time_s"`
+	Subst      map[string]string         `json:"subst"`
+	Merge      []string                  `json:"merge"` // pure loop-free scalar callees evaluated by path merging
+	LoopBounds map[string]int            `json:"loop_bounds"`
+	Tiers      []string                  `json:"tiers"`
+	Opts       map[string]string         `json:"opts"` // engine options, e.g. {"pool": "lifo"}
+	What       string                    `json:"what"`
 }
 
 type Spec struct {
@@ -237,12 +237,12 @@ func load(cfg *Config, id string, obls []Obligation) (*loaded, string, error) {
 }
 
 type oblResult struct {
-	Obl        Obligation
-	Eng        *interp.Engine
-	WallS      float64
-	Bounds     map[string]int
+	Obl          Obligation
+	Eng          *interp.Engine
+	WallS        float64
+	Bounds       map[string]int
 	MissingReach []string
-	Incomplete []string
+	Incomplete   []string
 }
 
 func tierVal(m map[string]int, tier string, def int) int {
@@ -309,6 +309,13 @@ func runObligation(cfg *Config, l *loaded, o Obligation, conc *interp.Concrete, 
 	qto := 6000
 	if cfg.Tier == "thorough" {
 		qto = 30000
+	}
+	if v, ok := o.Opts["qto_ms"]; ok {
+		// per-obligation solver time-out for branch-feasibility queries (an undecided side is explored as feasible, so
+		// a shorter time-out trades solver time for a few extra paths; assertion queries still go through the fallbacks)
+		if n, err := strconv.Atoi(v); err == nil && n > 0 {
+			qto = n
+		}
 	}
 	eng.NewSolver = func() (*solver.Solver, error) { return solver.New("z3", []string{"-in"}, qto) }
 	if len(o.Merge) > 0 {
@@ -895,7 +902,10 @@ func crossCheck(cfg *Config, results []*oblResult, ev *evidence) {
 		}
 		jobs = sel
 	}
-	type out struct{ agree, disagree, unknown int; msgs []string }
+	type out struct {
+		agree, disagree, unknown int
+		msgs                     []string
+	}
 	sem := make(chan struct{}, cfg.Workers)
 	resc := make(chan [3]string, len(jobs))
 	for _, j := range jobs {
@@ -1022,11 +1032,11 @@ func (ev *evidence) write(cfg *Config, spec *Spec, results []*oblResult, wall fl
 			"max_loop_unwinding": e.MaxLoop, "max_call_depth": e.MaxDepth, "preemption_bound": e.MaxPreempt,
 			"paths": e.NPaths, "path_outcomes": e.Outcomes, "decisions": e.Decisions, "ssa_instructions_executed": e.Steps,
 			"scheduling_points": e.SchedPts,
-			"queries": e.Queries, "sat": e.NSat, "unsat": e.NUnsat, "unknown": e.NUnknown, "feasibility_unknown_explored_as_feasible": e.FeasUnknown, "solver_s": round1(e.SolverTime), "wall_s": round1(r.WallS),
+			"queries":           e.Queries, "sat": e.NSat, "unsat": e.NUnsat, "unknown": e.NUnknown, "feasibility_unknown_explored_as_feasible": e.FeasUnknown, "solver_s": round1(e.SolverTime), "wall_s": round1(r.WallS),
 			"assertion_queries_by_label": e.Asserts, "witnesses_required": r.Obl.Reach, "witnesses_missing": r.MissingReach,
-			"replay": map[bool]string{true: "native (go test -overlay against the real build)", false: "engine-trace (concrete re-execution of the SSA under the model)"}[r.Obl.Native],
+			"replay":              map[bool]string{true: "native (go test -overlay against the real build)", false: "engine-trace (concrete re-execution of the SSA under the model)"}[r.Obl.Native],
 			"unwind_is_violation": e.UnwindIsViolation, "deadlock_is_violation": e.DeadlockIsViolation,
-			"exhausted": e.Exhausted,
+			"exhausted":           e.Exhausted,
 			"path_merged_callees": r.Obl.Merge, "path_merged_calls": e.MergedCalls,
 		})
 	}
